@@ -36,7 +36,7 @@ class Inject(Exception):
     pass
 
 
-EXC = {"Exception": Inject, "RuntimeError": RuntimeError, "KeyboardInterrupt": KeyboardInterrupt}
+EXC = {"Exception": Inject, "RuntimeError": RuntimeError, "KeyboardInterrupt": KeyboardInterrupt, "RecursionError": RecursionError}
 
 
 class Ctl:
@@ -97,7 +97,7 @@ def plan(tier, seed):
     n = BUDGET[tier]["cases"]
     for i in range(n):
         fam = "series" if i % 6 == 5 else "bd"
-        specs.append(dict(family=fam, case=int(rng.integers(0, 2**31)), exc=["Exception", "RuntimeError", "KeyboardInterrupt"][i % 3], double=bool(i % 7 == 0), tier=tier))
+        specs.append(dict(family=fam, case=int(rng.integers(0, 2**31)), exc=["Exception", "RuntimeError", "KeyboardInterrupt", "RecursionError"][(i % 3) if i % 5 else 3], double=bool(i % 7 == 0), tier=tier))
     return specs
 
 
@@ -190,7 +190,7 @@ def _check_propagation(exc_cls, ctl, err):
     injected = ctl.raised[-1] if ctl.raised else None
     if injected is None:
         raise Violation("fault was never injected (harness)")
-    if exc_cls is RuntimeError:
+    if issubclass(exc_cls, RuntimeError):  # RuntimeError and its subclasses (RecursionError) arrive wrapped, chained by __cause__
         if not isinstance(err, RuntimeError):
             raise Violation(f"injected RuntimeError surfaced as {type(err).__name__}")
         cur, ok = err, False
